@@ -468,8 +468,10 @@ fn run(c: &mut Case) {
             bytes.splice(at..at, std::iter::repeat(0u8).take(jl));
             let allow = c.rng.below(8) as u8;
             let cfg = RCfg { allow, buffered: vec![], capacity: *c.rng.pick(&[None, Some(16), Some(64)]), max_size: MaxSz::Set(Some(1 << 20)), eof_end: c.rng.chance(1, 2) };
-            let blip = at + c.rng.urange(1, jl);
-            let src = crate::io::ScriptedRead::new(bytes.clone()).with_chunks(vec![], 1).with_blips(vec![blip]);
+            // a temporary end of file that lasts until the caller's next-but-one call: it is met by the look-ahead of the
+            // next() that reports the junk and is still in force during the first try_recover()
+            let blip = at + c.rng.urange(2, jl);
+            let src = crate::io::ScriptedRead::new(bytes.clone()).with_chunks(vec![], 1).with_stops(vec![blip]);
             let len = bytes.len();
             let mut it = crate::rd::make_iter(src, &cfg);
             let mut log: Vec<String> = Vec::new();
@@ -503,8 +505,10 @@ fn run(c: &mut Case) {
                         }
                         // answer with try_recover(), twice if the first one runs into the temporary end of file
                         let mut gave_up = false;
-                        for _ in 0..3 {
-                            it.get_mut().begin_api_call();
+                        for attempt in 0..3 {
+                            if attempt > 0 {
+                                it.get_mut().begin_api_call(); // more data has arrived
+                            }
                             match crate::rd::recover_ev(&mut it, crate::rd::step_budget(len, items)) {
                                 Ok(Ok(())) => break,
                                 Ok(Err(_)) => {
